@@ -347,6 +347,26 @@ def _run_props(res, ctx):
                                       {"program": src, "comments": comments, "selection": {k: sorted(v) for k, v in prof.items()}, "finding": list(f), "covered_by_spec": covered, "withheld_by_impl": f in withheld})
     finally:
         scratch2.close()
+    # ---- line-end styles: the same program with CRLF and with lone-CR line ends has the same lines for the parser, so its comments mark the same findings (found on the
+    #      unchanged tree: the comment pass read the bytes line by line with readline(), which ends a line at `\n` only, while the parser counts a lone `\r` as a line end:
+    #      in a CR-only file every comment was attributed to line 1)
+    nl_progs = [p for p in progs if p[1] and "\\\n" not in p[0]][:: max(1, len([p for p in progs if p[1]]) // 60)][:60]
+    scratch4 = C.Scratch()
+    try:
+        lf = C.batch_real_scan(scratch4, [p[0].encode() for p in nl_progs], ignore_nosec=False)
+        for style, nl in (("CRLF", "\r\n"), ("CR", "\r")):
+            alt = C.batch_real_scan(scratch4, [p[0].replace("\n", nl).encode() for p in nl_progs], ignore_nosec=False)
+            for (src, comments, meta), a, b in zip(nl_progs, lf, alt):
+                res.case(("line-ends", style, src), True)
+                res.count("line-end-style:" + style)
+                fa = sorted(tuple(f[:4]) for f in a["findings"])
+                fb = sorted(tuple(f[:4]) for f in b["findings"])
+                if fa != fb or (a["nosec"], a["skipped_tests"]) != (b["nosec"], b["skipped_tests"]) or bool(a["skipped"]) != bool(b["skipped"]):
+                    res.violation("the same program with %s line ends: nosec comments withhold other findings than with LF line ends" % style,
+                                  {"program (LF)": src, "comments": {str(k): v for k, v in comments.items()}, "reported_LF": [list(x) for x in fa], "reported_" + style: [list(x) for x in fb],
+                                   "counters_LF": [a["nosec"], a["skipped_tests"]], "counters_" + style: [b["nosec"], b["skipped_tests"]], "skipped_" + style: b["skipped"]})
+    finally:
+        scratch4.close()
     # ---- the counters of a whole RUN: programs with nosec comments scanned as directory targets given in different spellings (relative names that begin with `_`, `.`,
     #      a nested path, `./x`, an absolute path), alone and together — `_totals.nosec + _totals.skipped_tests` equals the number of findings the comments withheld
     #      (= findings with --ignore-nosec minus findings without); seeded change C02-m16 left every metrics block whose key starts with `_` out of the totals
